@@ -13,7 +13,9 @@ def specs_all(tier):
     k = 0
     shapes = ["plain", "generic", "generic_self_where", "generic_self_hrtb", "generic_self_hrtb_inline", "generic_self_nested", "output_self", "rhs_self",
               # operand types written `(&A)`, and handed in through `$t:ty` fragments of a macro_rules! macro
-              "paren", "frag"]
+              "paren", "frag",
+              # a path through `Self` (an associated constant) in the where-clause
+              "self_const"]
     for op in C.BINOPS:
         for shape in shapes:
             for lref in (False, True):
@@ -36,7 +38,7 @@ def render(s):
     op = s["op"]
     fn = C.OPFN[op]
     sym = C.OPSYM[op]
-    generic = s["shape"] not in ("plain", "rhs_self", "paren", "frag")
+    generic = s["shape"] not in ("plain", "rhs_self", "paren", "frag", "self_const")
     g = "<T>" if generic else ""
     if s["shape"] == "generic_self_hrtb_inline":
         # an inline bound that is already higher-ranked and mentions `Self`
@@ -59,6 +61,10 @@ def render(s):
             wh += ", for<'b> Self: ::dxrt::TagL<'b>"
     gdef = "<T>" if generic else ""
     defs = [f"#[derive(Clone)] pub struct A{gdef}(pub {fty});"]
+    if s["shape"] == "self_const":
+        defs.append("impl A { pub const N: usize = 2; }")
+        if not s["lref"]:
+            wh = "where [u8; Self::N]: ::core::marker::Sized, [(); Self::N + 1]: ::core::marker::Copy"
     if s["other"]:
         defs.append(f"#[derive(Clone)] pub struct O{gdef}(pub {fty});")
     getl = "::dxrt::Tm::s(&self.0)" if generic else "self.0.0.clone()"
